@@ -15,7 +15,7 @@
      ORACLE <case> <op#> <verdict> | <op text>             the implementation's observations break the spec
      CASE <case> <nops> <kinds> <nontrivial 0|1> <hash> <same-instant orders explored 0|1>    statistics
      DONE <cases>
-   Usage: runner [pinned|current|d,n,g,t]   (variant; default current) *)
+   Usage: runner [pinned|current|d,n,g,t] [oracle]   (variant, default current; "oracle" = no model replay) *)
 open Engine_model
 
 let rec pos_of_int (i : int) : positive =
@@ -122,6 +122,9 @@ let variant_of_string (s : string) : variant =
 
 let () =
   let v = if Array.length Sys.argv > 1 then variant_of_string Sys.argv.(1) else current in
+  (* second argument "oracle": only the spec checker is run on the implementation's observations (configuration with the
+     dummy timer, whose firing discipline is not the real timer's) *)
+  let oracle_only = Array.length Sys.argv > 2 && Sys.argv.(2) = "oracle" in
   let lines = ref [] in
   (try while true do lines := input_line stdin :: !lines done with End_of_file -> ());
   let lines = List.rev !lines in
@@ -157,7 +160,7 @@ let () =
        explored; candidates whose observations differ from the implementation's are dropped; a case diverges when no
        candidate is left. *)
     let states = ref [init] in
-    let diverged = ref false in
+    let diverged = ref oracle_only in
     let kinds = Hashtbl.create 8 in
     let any_cb = ref false in
     let by_of txt = List.fold_left (fun acc w ->
@@ -242,6 +245,27 @@ let () =
                 | _ -> (full, None)) in
               [with_nops (step1 (st, []) (ENack (nm', dig, n_of_int (int_of_string r))))]
           | ["adv"; d] -> advance (st, []) o.nops (int_of_n (now st) + int_of_string d)
+          | "datafire" :: _ | "nackfire" :: _ ->
+              (* the packet is processed while the clock moves by d and every timer due by then FIRES (its closure waits for
+                 the PIT lock); then the closures run: EAdvance d; EFire..; EData/ENack; ERun.. *)
+              let (pkt, d) = (match f with
+                | ["datafire"; nm; dd; d] -> (EData (name_of_string nm, n_of_int (int_of_string dd)), int_of_string d)
+                | ["nackfire"; nm; r; d] ->
+                    let full = name_of_string nm in
+                    let (nm', dig) = (match List.rev full with
+                      | last :: rest when int_of_n last >= 100 -> (List.rev rest, Some last)
+                      | _ -> (full, None)) in
+                    (ENack (nm', dig, n_of_int (int_of_string r)), int_of_string d)
+                | _ -> (EAdvance N0, 0)) in
+              let acc = step1 (st, []) (EAdvance (n_of_int d)) in
+              let due = List.filter_map (fun x -> x)
+                (List.mapi (fun i tm -> match tm.tst with
+                   | TSched when int_of_n tm.tfire <= int_of_n (now (fst acc)) -> Some i
+                   | _ -> None) (timers (fst acc))) in
+              let acc = List.fold_left (fun a i -> step1 a (EFire (nat_of_int i))) acc due in
+              let acc = step1 acc pkt in
+              let acc = List.fold_left (fun a i -> step1 a (ERun (nat_of_int i))) acc due in
+              [with_nops acc]
           | ["attach"; nm; h] -> [step1 (st, []) (EAttach (name_of_string nm, n_of_int (int_of_string h)))]
           | ["detach"; nm] -> [step1 (st, []) (EDetach (name_of_string nm))]
           | ["interest"; nm; life; tok] -> [step1 (st, []) (EInterest (name_of_string nm, opt_n life, opt_tok tok))]
@@ -249,7 +273,9 @@ let () =
           | _ -> Printf.printf "BADLINE %s op %s\n" cid o.text; [(st, [])] in
         let is_cb l = String.length l > 3 && String.sub l 0 3 = "cb " in
         let is_adv = (List.hd f = "adv") in
-        let srt l = if is_adv then List.sort (fun a b -> compare (timeout_key a) (timeout_key b)) l else l in
+        let is_fire = (List.hd f = "datafire" || List.hd f = "nackfire") in
+        let srt l = if is_adv then List.sort (fun a b -> compare (timeout_key a) (timeout_key b)) l
+                    else if is_fire then List.sort compare l else l in
         let icbs = srt o.cbs and iouts = List.sort compare o.outs in
         (* first difference between a candidate and the implementation, if any *)
         let differs (st, mobs) : (string * string * string) option =
@@ -324,6 +350,22 @@ let () =
                | last :: rest when int_of_n last >= 100 -> (List.rev rest, Some last)
                | _ -> (full, None)) in
              feed idx o.text (SNack (nm', dig, n_of_int (int_of_string r))) (parse o.cbs);
+             List.iter feed_nop o.nops
+         | ["datafire"; nm; dd; d] ->
+             let is_to l = (match String.split_on_char ' ' l with [_; _; "timeout"; _] -> true | _ -> false) in
+             feed idx o.text (SAdvance (n_of_int (int_of_string d))) [];
+             feed idx o.text (SData (name_of_string nm, n_of_int (int_of_string dd))) (parse (List.filter (fun l -> not (is_to l)) o.cbs));
+             feed idx o.text STimers (parse (List.filter is_to o.cbs));
+             List.iter feed_nop o.nops
+         | ["nackfire"; nm; r; d] ->
+             let is_to l = (match String.split_on_char ' ' l with [_; _; "timeout"; _] -> true | _ -> false) in
+             let full = name_of_string nm in
+             let (nm', dig) = (match List.rev full with
+               | last :: rest when int_of_n last >= 100 -> (List.rev rest, Some last)
+               | _ -> (full, None)) in
+             feed idx o.text (SAdvance (n_of_int (int_of_string d))) [];
+             feed idx o.text (SNack (nm', dig, n_of_int (int_of_string r))) (parse (List.filter (fun l -> not (is_to l)) o.cbs));
+             feed idx o.text STimers (parse (List.filter is_to o.cbs));
              List.iter feed_nop o.nops
          | ["adv"; d] ->
              let target = int_of_n (sp_now !sp) + int_of_string d in
